@@ -1,20 +1,30 @@
 // C05 — MITM never downgrades and treats every tunnelled request as secure.
 //
-// Engine B (bounded-exhaustive enumeration on the unmodified proxy). A *history* is
+// Engine B (bounded-exhaustive enumeration on the unmodified proxy). A *history* is a set of scripted client
+// connections to one real martian.Proxy. Four finite spaces are enumerated completely:
 //
-//	listener kind {plain net.Listener, trafficshape.NewListener(l), transparent tls.NewListener(l, mitm.TLS())}
-//	x what the client speaks inside the tunnel {TLS, plaintext HTTP} (transparent listener: TLS only, no CONNECT)
-//	x N = 1..2 (quick) / 1..3 (thorough) requests on the decrypted connection
-//	x target form of every request {origin-form + Host, absolute http://, absolute https://, HTTP/1.0 without Host}
-//	x hijack {none, request modifier of request N, response modifier of request N} x handle used by the
-//	  hijacker {net.Conn, *bufio.ReadWriter returned by Session.Hijack}.
+//	core      (both tiers) listener {plain, trafficshape.NewListener, transparent tls.NewListener(l, mitm.TLS())}
+//	          x tunnel content {TLS, plaintext HTTP} (transparent: TLS only, no CONNECT) x authority port {443, 8443}
+//	          x N = 1..2 (quick) / 1..4 (thorough) requests, every sequence over the target forms {origin-form + Host,
+//	          absolute http://, absolute https://, HTTP/1.0 without Host} x hijack {none, request modifier, response
+//	          modifier of the last request} x handle used by the hijacker {net.Conn, *bufio.ReadWriter}. A hijack at
+//	          request i of a longer history IS the history of length i (nothing can follow a hijack), so every hijack
+//	          index 1..N is covered.
+//	config    (thorough) core with N <= 2, crossed with CONNECT authority spelling {name:443, name:8443, MiXed-case:443,
+//	          IPv4:443, [IPv6]:443, [IPv6]:8443} x client SNI {host of the authority, a different name} x client TLS
+//	          profile {default, ALPN h2+http/1.1 offered, TLS 1.2 only, TLS 1.3 only} x early data {no, first bytes of
+//	          the tunnel (ClientHello resp. first request) in the same segment as the CONNECT head}.
+//	pair      (thorough) two connections with two tunnels (different authorities, every combination of TLS/plaintext),
+//	          1..2 requests each, all form sequences, interleaved request by request.
+//	reconnect (thorough) plaintext inside CONNECT (1..2 requests) followed by a second CONNECT (other authority) on the
+//	          same connection whose tunnel carries TLS or plaintext (1..2 requests), all form sequences.
 //
-// Every history is run once through the real martian.Proxy (real loopback TCP, real crypto/tls client, the
-// proxy's default http.Transport trusting the harness origin's certificate, SetDial -> in-process origin whose
-// acceptor sniffs the first byte of every connection: 0x16 = reached over TLS, anything else = cleartext).
-// Recording request/response modifiers note what modifiers are shown; the oracle below is written from the
-// property statement only. Histories run in worker subprocesses (the proxy's per-connection goroutine has no
-// recover): a worker logs the history id before running it, so a dead worker is attributed to a history.
+// Every history is run once through the real proxy (real loopback TCP, real crypto/tls client, the proxy's default
+// http.Transport trusting the harness origin's certificate, SetDial -> in-process origin whose acceptor sniffs the
+// first byte of every connection: 0x16 = reached over TLS, anything else = cleartext). Recording request/response
+// modifiers note what modifiers are shown; the oracle is written from the property statement only. Histories run
+// in worker subprocesses (the proxy's per-connection goroutine has no recover): a worker logs the history id
+// before running it, so a dead worker is attributed to a history.
 package main
 
 import (
@@ -53,66 +63,180 @@ import (
 
 const (
 	hostName = "c05-origin.test"
+	otherSNI = "c05-other-sni.test"
 	marker   = "C05-HIJACKED-MARKER\n"
 	ack      = "C05-ACK\n"
 	ekmLabel = "EXPORTER-verif-c05"
 
 	ioDeadline      = 12 * time.Second // generous per-I/O hang guard (liveness only)
-	historyDeadline = 40 * time.Second
+	historyDeadline = 60 * time.Second
 )
 
 var (
 	listeners = []string{"plain", "shaped", "transparent"}
 	inners    = []string{"tls", "plain"}
 	forms     = []string{"origin", "abs_http", "abs_https", "nohost"}
-	ports     = []int{443, 8443} // port of the tunnel authority: the https default and another one
+	profiles  = []string{"default", "alpn_h2", "tls12", "tls13"}
 )
+
+type authSpelling struct{ Label, Authority string }
+
+var (
+	coreAuths   = []authSpelling{{"443", hostName + ":443"}, {"8443", hostName + ":8443"}}
+	configAuths = []authSpelling{
+		{"name_443", hostName + ":443"}, {"name_8443", hostName + ":8443"}, {"mixedcase_443", "C05-Origin.Test:443"},
+		{"ipv4_443", "127.0.0.1:443"}, {"ipv6_443", "[::1]:443"}, {"ipv6_8443", "[::1]:8443"},
+	}
+)
+
+// hostGiven is how requests that do name a host name it: the authority, default https port omitted (as clients do).
+func hostGiven(auth string) string { return strings.TrimSuffix(auth, ":443") }
+
+func bareHost(auth string) string {
+	h, _, err := net.SplitHostPort(auth)
+	if err != nil {
+		return auth
+	}
+	return h
+}
+
+func isIP(auth string) bool { return net.ParseIP(bareHost(auth)) != nil }
+
+// hostOK: URL.Host denotes the tunnel authority (host names are case-insensitive; the default https port may be omitted).
+func hostOK(auth, got string) bool {
+	return strings.EqualFold(got, auth) || strings.EqualFold(got, hostGiven(auth))
+}
+
+// Phase is one tunnel on a connection: its CONNECT authority, what the client speaks inside, the requests.
+type Phase struct {
+	Authority string   `json:"authority"`
+	Inner     string   `json:"inner"` // tls | plain
+	Forms     []string `json:"forms"`
+}
+
+// Script is one client connection.
+type Script struct {
+	Phases []Phase `json:"phases"`
+	TLS    string  `json:"tls"`   // client TLS profile
+	SNI    string  `json:"sni"`   // same | other
+	Early  bool    `json:"early"` // first tunnel bytes in the same segment as the CONNECT head
+	Auth   string  `json:"auth"`  // label of the authority spelling (phase 0)
+}
 
 // History is one enumerated scenario.
 type History struct {
 	ID       int      `json:"id"`
+	Space    string   `json:"space"` // core | config | pair | reconnect
 	Listener string   `json:"listener"`
-	Inner    string   `json:"inner"`
-	Port     int      `json:"port"`
-	Forms    []string `json:"forms"`  // target form of request 1..N
-	Hijack   string   `json:"hijack"` // none | req | res  (modifier of the LAST request)
+	Conns    []Script `json:"conns"`
+	Hijack   string   `json:"hijack"` // none | req | res  (modifier of the LAST request of connection 0)
 	Via      string   `json:"via"`    // conn | brw (which value returned by Hijack() the hijacker uses)
 }
 
 func (h History) String() string {
-	s := fmt.Sprintf("#%d listener=%s inner=%s authority=%s forms=%s hijack=%s", h.ID, h.Listener, h.Inner, h.authority(), strings.Join(h.Forms, ","), h.Hijack)
+	var cs []string
+	for _, sc := range h.Conns {
+		var ps []string
+		for _, p := range sc.Phases {
+			ps = append(ps, fmt.Sprintf("%s{%s:%s}", p.Authority, p.Inner, strings.Join(p.Forms, ",")))
+		}
+		s := strings.Join(ps, " then ")
+		if h.Space == "config" {
+			s += fmt.Sprintf(" tls=%s sni=%s early=%v", sc.TLS, sc.SNI, sc.Early)
+		}
+		cs = append(cs, s)
+	}
+	s := fmt.Sprintf("#%d [%s] listener=%s %s hijack=%s", h.ID, h.Space, h.Listener, strings.Join(cs, " || "), h.Hijack)
 	if h.Hijack != "none" {
 		s += " via=" + h.Via
 	}
 	return s
 }
 
-// authority is the CONNECT target, "the tunnel's authority".
-func (h History) authority() string { return fmt.Sprintf("%s:%d", hostName, h.Port) }
-
-// hostGiven is how requests that do name a host name it (default port omitted, as clients do).
-func (h History) hostGiven() string {
-	if h.Port == 443 {
-		return hostName
-	}
-	return h.authority()
+// item is one message the client sends on a connection: a CONNECT head or a request inside a tunnel.
+type item struct {
+	phase   int
+	connect bool
+	idx     int // 1-based index of the request within its tunnel
+	form    string
+	seq     int // index of the message on the connection (header X-C05-Seq)
 }
 
-// hostOK: URL.Host denotes the tunnel authority (the default https port may be omitted).
-func (h History) hostOK(got string) bool { return got == h.authority() || got == h.hostGiven() }
+func (h History) items(ci int) []item {
+	var out []item
+	for pi, p := range h.Conns[ci].Phases {
+		if h.Listener != "transparent" {
+			out = append(out, item{phase: pi, connect: true, seq: len(out)})
+		}
+		for k, f := range p.Forms {
+			out = append(out, item{phase: pi, idx: k + 1, form: f, seq: len(out)})
+		}
+	}
+	return out
+}
 
-func (h History) entry() string {
-	if h.Listener == "transparent" {
+func (h History) entry(ci, phase int) string {
+	switch {
+	case h.Listener == "transparent":
 		return "transparent_tls"
+	case phase > 0:
+		return "reconnect_" + h.Conns[ci].Phases[phase].Inner
 	}
-	return "connect_" + h.Inner
+	return "connect_" + h.Conns[ci].Phases[phase].Inner
 }
 
-// enumerate yields every history, simplest first (fewest requests, no hijack first).
-func enumerate(maxN int) []History {
+// attrs are the scenario attributes of one request (or of the history if it.idx == 0) that signatures may mention.
+func (h History) attrs(ci int, it item) map[string]string {
+	sc := h.Conns[ci]
+	a := map[string]string{"listener": h.Listener}
+	if it.idx > 0 {
+		a["form"] = it.form
+		a["cls"] = "later_request"
+		if it.idx == 1 {
+			a["cls"] = "first_request"
+		}
+	}
+	switch h.Space {
+	case "core":
+		a["port"] = sc.Auth
+	case "config":
+		a["auth"] = sc.Auth
+		a["early"] = strconv.FormatBool(sc.Early)
+		if sc.Phases[0].Inner == "tls" {
+			a["sni"] = sc.SNI
+			a["tls"] = sc.TLS
+		}
+	case "pair":
+		a["peer"] = h.Conns[1-ci].Phases[0].Inner
+	}
+	return a
+}
+
+func formSeqs(n int, f func([]string)) {
+	dims := make([]int, n)
+	for i := range dims {
+		dims[i] = len(forms)
+	}
+	lib.Product(dims, func(idx []int) {
+		fs := make([]string, n)
+		for i, x := range idx {
+			fs[i] = forms[x]
+		}
+		f(fs)
+	})
+}
+
+// enumerate yields every history of the tier, simplest first.
+func enumerate(tier string) []History {
 	var out []History
+	add := func(h History) { h.ID = len(out); out = append(out, h) }
 	type hj struct{ pos, via string }
 	hjs := []hj{{"none", ""}, {"req", "conn"}, {"req", "brw"}, {"res", "conn"}, {"res", "brw"}}
+	thorough := tier == "thorough"
+	maxN := 2
+	if thorough {
+		maxN = 4
+	}
 	for n := 1; n <= maxN; n++ {
 		for _, hk := range hjs {
 			for _, l := range listeners {
@@ -120,19 +244,84 @@ func enumerate(maxN int) []History {
 					if l == "transparent" && in == "plain" {
 						continue // a TLS listener cannot be spoken to in cleartext: not a tunnel at all
 					}
-					for _, port := range ports {
-						dims := make([]int, n)
-						for i := range dims {
-							dims[i] = len(forms)
-						}
-						lib.Product(dims, func(idx []int) {
-							h := History{ID: len(out), Listener: l, Inner: in, Port: port, Hijack: hk.pos, Via: hk.via}
-							for _, f := range idx {
-								h.Forms = append(h.Forms, forms[f])
-							}
-							out = append(out, h)
+					for _, au := range coreAuths {
+						formSeqs(n, func(fs []string) {
+							add(History{Space: "core", Listener: l, Hijack: hk.pos, Via: hk.via,
+								Conns: []Script{{Phases: []Phase{{au.Authority, in, fs}}, TLS: "default", SNI: "same", Auth: au.Label}}})
 						})
 					}
+				}
+			}
+		}
+	}
+	if !thorough {
+		return out
+	}
+	// config space
+	for n := 1; n <= 2; n++ {
+		for _, hk := range hjs {
+			for _, l := range listeners {
+				for _, in := range inners {
+					if l == "transparent" && in == "plain" {
+						continue
+					}
+					for _, au := range configAuths {
+						for _, sni := range []string{"same", "other"} {
+							for _, prof := range profiles {
+								for _, early := range []bool{false, true} {
+									if in == "plain" && (sni != "same" || prof != "default") {
+										continue // no TLS client in a plaintext tunnel
+									}
+									if l == "transparent" && (early || (isIP(au.Authority) && sni == "same")) {
+										continue // no CONNECT head to coalesce with; a transparent TLS listener needs SNI
+									}
+									if (au.Label == "name_443" || au.Label == "name_8443") && sni == "same" && prof == "default" && !early {
+										continue // exactly the core history
+									}
+									formSeqs(n, func(fs []string) {
+										add(History{Space: "config", Listener: l, Hijack: hk.pos, Via: hk.via,
+											Conns: []Script{{Phases: []Phase{{au.Authority, in, fs}}, TLS: prof, SNI: sni, Early: early, Auth: au.Label}}})
+									})
+								}
+							}
+						}
+					}
+				}
+			}
+		}
+	}
+	// pair space
+	for n := 1; n <= 2; n++ {
+		for _, l := range listeners {
+			for _, inA := range inners {
+				for _, inB := range inners {
+					if l == "transparent" && (inA == "plain" || inB == "plain") {
+						continue
+					}
+					formSeqs(n, func(fa []string) {
+						formSeqs(n, func(fb []string) {
+							add(History{Space: "pair", Listener: l, Hijack: "none", Conns: []Script{
+								{Phases: []Phase{{hostName + ":443", inA, fa}}, TLS: "default", SNI: "same", Auth: "443"},
+								{Phases: []Phase{{hostName + ":8443", inB, fb}}, TLS: "default", SNI: "same", Auth: "8443"},
+							}})
+						})
+					})
+				}
+			}
+		}
+	}
+	// reconnect space
+	for n1 := 1; n1 <= 2; n1++ {
+		for n2 := 1; n2 <= 2; n2++ {
+			for _, l := range []string{"plain", "shaped"} {
+				for _, in2 := range inners {
+					formSeqs(n1, func(f1 []string) {
+						formSeqs(n2, func(f2 []string) {
+							add(History{Space: "reconnect", Listener: l, Hijack: "none", Conns: []Script{
+								{Phases: []Phase{{hostName + ":443", "plain", f1}, {hostName + ":8443", in2, f2}}, TLS: "default", SNI: "same", Auth: "443"},
+							}})
+						})
+					})
 				}
 			}
 		}
@@ -144,7 +333,8 @@ func enumerate(maxN int) []History {
 
 // ReqObs is what the recording modifiers saw for one request.
 type ReqObs struct {
-	Seq        int    `json:"seq"` // 0 = CONNECT, 1..N inner requests
+	Conn       int    `json:"conn"`
+	Seq        int    `json:"seq"`
 	Method     string `json:"method"`
 	Scheme     string `json:"scheme"`
 	URLHost    string `json:"url_host"`
@@ -154,6 +344,7 @@ type ReqObs struct {
 	TLS        bool   `json:"tls"`
 	TLSEKM     string `json:"tls_ekm,omitempty"` // exported keying material: equal on both ends of ONE TLS connection
 	TLSDone    bool   `json:"tls_handshake_complete,omitempty"`
+	TLSVersion uint16 `json:"tls_version,omitempty"`
 	Session    int    `json:"session"` // index of the distinct *martian.Session objects seen in this history
 	SessionID  string `json:"session_id"`
 	ResSeen    bool   `json:"res_seen"`
@@ -166,6 +357,7 @@ type ReqObs struct {
 
 // OriginReq is one request the origin received.
 type OriginReq struct {
+	Conn int    `json:"conn"`
 	Seq  int    `json:"seq"`
 	TLS  bool   `json:"tls"`
 	Host string `json:"host"`
@@ -188,6 +380,25 @@ type ClientRes struct {
 	Err    string `json:"err,omitempty"`
 }
 
+// PhaseOut is what the client experienced when opening one tunnel.
+type PhaseOut struct {
+	Attempted     bool   `json:"attempted"`
+	ConnectStatus int    `json:"connect_status,omitempty"`
+	ConnectErr    string `json:"connect_err,omitempty"`
+	HandshakeErr  string `json:"handshake_err,omitempty"`
+	ClientEKM     string `json:"client_ekm,omitempty"`
+	TLSVersion    uint16 `json:"tls_version,omitempty"`
+	ALPN          string `json:"alpn,omitempty"`
+}
+
+// ConnOut is what one client connection experienced.
+type ConnOut struct {
+	DialErr     string      `json:"dial_err,omitempty"`
+	Phases      []PhaseOut  `json:"phases"`
+	Client      []ClientRes `json:"client"`
+	AckWriteErr string      `json:"ack_write_err,omitempty"`
+}
+
 // HijackObs is what the hijacking modifier experienced.
 type HijackObs struct {
 	Ran      bool   `json:"ran"`
@@ -200,22 +411,16 @@ type HijackObs struct {
 
 // Outcome is everything observed while running one history.
 type Outcome struct {
-	H             History      `json:"history"`
-	SetupErr      string       `json:"setup_err,omitempty"`
-	Crash         string       `json:"crash,omitempty"` // worker process died while running this history
-	Hang          bool         `json:"hang,omitempty"`
-	ConnectStatus int          `json:"connect_status,omitempty"`
-	ConnectErr    string       `json:"connect_err,omitempty"`
-	HandshakeErr  string       `json:"handshake_err,omitempty"`
-	ClientEKM     string       `json:"client_ekm,omitempty"`
-	PeerCertNames []string     `json:"peer_cert_names,omitempty"`
-	Reqs          []ReqObs     `json:"reqs"`
-	OriginReqs    []OriginReq  `json:"origin_reqs"`
-	OriginConns   []OriginConn `json:"origin_conns"`
-	Dials         []string     `json:"dials"`
-	Client        []ClientRes  `json:"client"`
-	Hijack        *HijackObs   `json:"hijack,omitempty"`
-	AckWriteErr   string       `json:"ack_write_err,omitempty"`
+	H           History      `json:"history"`
+	SetupErr    string       `json:"setup_err,omitempty"`
+	Crash       string       `json:"crash,omitempty"` // worker process died while running this history
+	Hang        bool         `json:"hang,omitempty"`
+	Conns       []ConnOut    `json:"conns"`
+	Reqs        []ReqObs     `json:"reqs"`
+	OriginReqs  []OriginReq  `json:"origin_reqs"`
+	OriginConns []OriginConn `json:"origin_conns"`
+	Dials       []string     `json:"dials"`
+	Hijack      *HijackObs   `json:"hijack,omitempty"`
 }
 
 // ---- per-process environment -----------------------------------------------------------------------------------
@@ -225,10 +430,113 @@ type env struct {
 	mitmRoots  *x509.CertPool // what the client trusts (the MITM CA)
 	originCert tls.Certificate
 	originPool *x509.CertPool // what the proxy's transport trusts (the harness origin's certificate)
+
+	// Two TCP listeners live as long as the worker process (one in front of the proxy, one for the origin):
+	// tens of thousands of histories with fresh listeners each exhaust the loopback port space.
+	front  *hub
+	origin *hub
 }
 
-// authorityFiles: the parent generates the MITM CA once (mitm.NewAuthority) and hands it to the worker
-// processes through two files, which saves one RSA key generation per worker start.
+// hub is a persistent TCP acceptor whose connections are handed to whoever is attached at the moment.
+type hub struct {
+	l   net.Listener
+	mu  sync.Mutex
+	cur *hubListener
+}
+
+func newHub() (*hub, error) {
+	l, err := net.Listen("tcp", "127.0.0.1:0")
+	if err != nil {
+		return nil, err
+	}
+	h := &hub{l: l}
+	go func() {
+		for {
+			c, err := l.Accept()
+			if err != nil {
+				return
+			}
+			h.mu.Lock()
+			cur := h.cur
+			h.mu.Unlock()
+			if cur == nil {
+				c.Close()
+				continue
+			}
+			select {
+			case cur.ch <- c:
+			case <-cur.closed:
+				c.Close()
+			}
+		}
+	}()
+	return h, nil
+}
+
+// hubListener is the net.Listener one history sees: real *net.TCPConn connections, Close detaches it.
+type hubListener struct {
+	h      *hub
+	ch     chan net.Conn
+	closed chan struct{}
+	once   sync.Once
+}
+
+func (h *hub) attach() *hubListener {
+	hl := &hubListener{h: h, ch: make(chan net.Conn, 16), closed: make(chan struct{})}
+	h.mu.Lock()
+	h.cur = hl
+	h.mu.Unlock()
+	return hl
+}
+
+func (l *hubListener) Accept() (net.Conn, error) {
+	select {
+	case c := <-l.ch:
+		return c, nil
+	case <-l.closed:
+		return nil, net.ErrClosed
+	}
+}
+
+func (l *hubListener) Close() error {
+	l.once.Do(func() {
+		l.h.mu.Lock()
+		if l.h.cur == l {
+			l.h.cur = nil
+		}
+		l.h.mu.Unlock()
+		close(l.closed)
+		for {
+			select {
+			case c := <-l.ch:
+				c.Close()
+			default:
+				return
+			}
+		}
+	})
+	return nil
+}
+
+func (l *hubListener) Addr() net.Addr { return l.h.l.Addr() }
+
+func (e *env) resetHubs() error {
+	if e.front != nil {
+		e.front.l.Close()
+	}
+	if e.origin != nil {
+		e.origin.l.Close()
+	}
+	var err error
+	if e.front, err = newHub(); err != nil {
+		return err
+	}
+	e.origin, err = newHub()
+	return err
+}
+
+// The parent generates the MITM CA once (mitm.NewAuthority) and hands it to the worker processes through two
+// files, which saves one RSA key generation per worker start.
 func writeAuthority(dir string) error {
 	ca, priv, err := mitm.NewAuthority("c05.verif.proxy", "C05 Verif Authority", 2*time.Hour)
 	if err != nil {
@@ -282,6 +590,7 @@ func newEnv() (*env, error) {
 		BasicConstraintsValid: true,
 		IsCA:                  true,
 		DNSNames:              []string{hostName},
+		IPAddresses:           []net.IP{net.ParseIP("127.0.0.1"), net.ParseIP("::1")},
 	}
 	raw, err := x509.CreateCertificate(rand.Reader, tmpl, tmpl, key.Public(), key)
 	if err != nil {
@@ -293,7 +602,7 @@ func newEnv() (*env, error) {
 	}
 	e.originCert = tls.Certificate{Certificate: [][]byte{raw}, PrivateKey: key, Leaf: leaf}
 	e.originPool.AddCert(leaf)
-	return e, nil
+	return e, e.resetHubs()
 }
 
 // bufConn is a net.Conn whose reads go through a bufio.Reader (already-buffered bytes are not lost).
@@ -303,6 +612,48 @@ type bufConn struct {
 }
 
 func (c *bufConn) Read(p []byte) (int, error) { return c.br.Read(p) }
+
+// earlyConn lets a TLS client start its handshake before the CONNECT response has arrived: the first Write
+// (the ClientHello) is sent in one segment together with the CONNECT head, the first Read consumes the CONNECT
+// response.
+type earlyConn struct {
+	net.Conn
+	br     *bufio.Reader
+	head   []byte
+	got    bool
+	status int
+	err    string
+}
+
+func (c *earlyConn) Write(p []byte) (int, error) {
+	if c.head == nil {
+		return c.Conn.Write(p)
+	}
+	b := append(append([]byte(nil), c.head...), p...)
+	hl := len(c.head)
+	c.head = nil
+	n, err := c.Conn.Write(b)
+	if n -= hl; n < 0 {
+		n = 0
+	}
+	return n, err
+}
+
+func (c *earlyConn) Read(p []byte) (int, error) {
+	if !c.got {
+		res, err := http.ReadResponse(c.br, &http.Request{Method: "CONNECT"})
+		if err != nil {
+			c.err = "read CONNECT response: " + err.Error()
+			return 0, err
+		}
+		c.got = true
+		c.status = res.StatusCode
+		if res.StatusCode != 200 {
+			return 0, fmt.Errorf("CONNECT answered %d", res.StatusCode)
+		}
+	}
+	return c.br.Read(p)
+}
 
 // ---- origin ----------------------------------------------------------------------------------------------------
 
@@ -316,10 +667,7 @@ type origin struct {
 }
 
 func newOrigin(e *env) (*origin, error) {
-	l, err := net.Listen("tcp", "127.0.0.1:0")
-	if err != nil {
-		return nil, err
-	}
+	l := e.origin.attach()
 	o := &origin{l: l, tlsCfg: &tls.Config{Certificates: []tls.Certificate{e.originCert}}}
 	go func() {
 		for {
@@ -343,6 +691,14 @@ func (o *origin) close() {
 		c.Close()
 	}
 	o.mu.Unlock()
+}
+
+func hdrInt(h http.Header, k string) int {
+	n, err := strconv.Atoi(h.Get(k))
+	if err != nil {
+		return -1
+	}
+	return n
 }
 
 func (o *origin) serve(c net.Conn) {
@@ -378,21 +734,24 @@ func (o *origin) serve(c net.Conn) {
 			return
 		}
 		io.Copy(io.Discard, req.Body)
-		seq, _ := strconv.Atoi(req.Header.Get("X-C05-Seq"))
+		conn, seq := hdrInt(req.Header, "X-C05-Conn"), hdrInt(req.Header, "X-C05-Seq")
 		o.mu.Lock()
-		o.reqs = append(o.reqs, OriginReq{Seq: seq, TLS: isTLS, Host: req.Host, URI: req.RequestURI})
+		o.reqs = append(o.reqs, OriginReq{Conn: conn, Seq: seq, TLS: isTLS, Host: req.Host, URI: req.RequestURI})
 		o.mu.Unlock()
-		body := originBody(kind, seq)
+		body := originBody(kind, conn, seq)
 		fmt.Fprintf(rw, "HTTP/1.1 200 OK\r\nContent-Type: text/plain\r\nContent-Length: %d\r\nX-C05-Origin: %s\r\n\r\n%s", len(body), kind, body)
 	}
 }
 
-func originBody(kind string, seq int) string { return fmt.Sprintf("origin:%s:%d\n", kind, seq) }
+func originBody(kind string, conn, seq int) string {
+	return fmt.Sprintf("origin:%s:c%d:s%d\n", kind, conn, seq)
+}
 
 // ---- recording / hijacking modifier ----------------------------------------------------------------------------
 
 type recorder struct {
 	h        History
+	hjSeq    int // seq of the request whose modifier hijacks (connection 0), -1 = none
 	mu       sync.Mutex
 	reqs     []ReqObs
 	sessions []*martian.Session // kept alive so that pointer identity is meaningful
@@ -410,14 +769,6 @@ func (m *recorder) sessionIndex(s *martian.Session) int {
 	return len(m.sessions) - 1
 }
 
-func seqOf(req *http.Request) int {
-	n, err := strconv.Atoi(req.Header.Get("X-C05-Seq"))
-	if err != nil {
-		return -1
-	}
-	return n
-}
-
 func ekmOf(cs *tls.ConnectionState) (s string) {
 	defer func() {
 		if r := recover(); r != nil { // a ConnectionState that does not stem from a real handshake
@@ -432,7 +783,8 @@ func ekmOf(cs *tls.ConnectionState) (s string) {
 }
 
 func (m *recorder) ModifyRequest(req *http.Request) error {
-	ob := ReqObs{Seq: seqOf(req), Method: req.Method, Scheme: req.URL.Scheme, URLHost: req.URL.Host, HostHdr: req.Host, Session: -1, ResSession: -1}
+	ob := ReqObs{Conn: hdrInt(req.Header, "X-C05-Conn"), Seq: hdrInt(req.Header, "X-C05-Seq"), Method: req.Method,
+		Scheme: req.URL.Scheme, URLHost: req.URL.Host, HostHdr: req.Host, Session: -1, ResSession: -1}
 	ctx := martian.NewContext(req)
 	m.mu.Lock()
 	if ctx != nil && ctx.Session() != nil {
@@ -445,11 +797,12 @@ func (m *recorder) ModifyRequest(req *http.Request) error {
 	if req.TLS != nil {
 		ob.TLS = true
 		ob.TLSDone = req.TLS.HandshakeComplete
+		ob.TLSVersion = req.TLS.Version
 		ob.TLSEKM = ekmOf(req.TLS)
 	}
 	m.reqs = append(m.reqs, ob)
 	m.mu.Unlock()
-	if m.h.Hijack == "req" && ob.Seq == len(m.h.Forms) {
+	if m.h.Hijack == "req" && ob.Conn == 0 && ob.Seq == m.hjSeq {
 		m.doHijack(ctx)
 	}
 	return nil
@@ -460,11 +813,11 @@ func (m *recorder) ModifyResponse(res *http.Response) error {
 	if req == nil {
 		return nil
 	}
-	seq := seqOf(req)
+	conn, seq := hdrInt(req.Header, "X-C05-Conn"), hdrInt(req.Header, "X-C05-Seq")
 	ctx := martian.NewContext(req)
 	m.mu.Lock()
 	for i := range m.reqs {
-		if m.reqs[i].Seq == seq && !m.reqs[i].ResSeen {
+		if m.reqs[i].Conn == conn && m.reqs[i].Seq == seq && !m.reqs[i].ResSeen {
 			ob := &m.reqs[i]
 			ob.ResSeen = true
 			ob.ResStatus = res.StatusCode
@@ -478,7 +831,7 @@ func (m *recorder) ModifyResponse(res *http.Response) error {
 		}
 	}
 	m.mu.Unlock()
-	if m.h.Hijack == "res" && seq == len(m.h.Forms) {
+	if m.h.Hijack == "res" && conn == 0 && seq == m.hjSeq && req.Method != "CONNECT" {
 		m.doHijack(ctx)
 	}
 	return nil
@@ -540,27 +893,195 @@ func (m *recorder) doHijack(ctx *martian.Context) {
 	ho.Read = strconv.Quote(string(got))
 }
 
-// ---- running one history ---------------------------------------------------------------------------------------
+// ---- scripted client -------------------------------------------------------------------------------------------
 
-func requestBytes(h History, seq int) string {
-	form, hostName := h.Forms[seq-1], h.hostGiven()
-	x := fmt.Sprintf("X-C05-Seq: %d\r\n", seq)
+func requestBytes(auth, form string, conn, seq int) string {
+	host := hostGiven(auth)
+	x := fmt.Sprintf("X-C05-Conn: %d\r\nX-C05-Seq: %d\r\n", conn, seq)
+	path := fmt.Sprintf("/c%ds%d", conn, seq)
 	switch form {
 	case "origin":
-		return fmt.Sprintf("GET /r%d HTTP/1.1\r\nHost: %s\r\n%s\r\n", seq, hostName, x)
+		return fmt.Sprintf("GET %s HTTP/1.1\r\nHost: %s\r\n%s\r\n", path, host, x)
 	case "abs_http":
-		return fmt.Sprintf("GET http://%s/r%d HTTP/1.1\r\nHost: %s\r\n%s\r\n", hostName, seq, hostName, x)
+		return fmt.Sprintf("GET http://%s%s HTTP/1.1\r\nHost: %s\r\n%s\r\n", host, path, host, x)
 	case "abs_https":
-		return fmt.Sprintf("GET https://%s/r%d HTTP/1.1\r\nHost: %s\r\n%s\r\n", hostName, seq, hostName, x)
+		return fmt.Sprintf("GET https://%s%s HTTP/1.1\r\nHost: %s\r\n%s\r\n", host, path, host, x)
 	case "nohost":
 		// HTTP/1.0 origin-form without a Host header; keep-alive so that later requests can follow it.
-		return fmt.Sprintf("GET /r%d HTTP/1.0\r\nConnection: keep-alive\r\n%s\r\n", seq, x)
+		return fmt.Sprintf("GET %s HTTP/1.0\r\nConnection: keep-alive\r\n%s\r\n", path, x)
 	}
 	panic("bad form " + form)
 }
 
+type client struct {
+	e      *env
+	h      History
+	ci     int
+	sc     Script
+	items  []item
+	next   int
+	dead   bool
+	sent   map[int]bool // requests already written together with the CONNECT head
+	raw    net.Conn
+	stream net.Conn
+	sbr    *bufio.Reader
+	out    *ConnOut
+	omu    *sync.Mutex
+}
+
+func (c *client) set(f func()) { c.omu.Lock(); f(); c.omu.Unlock() }
+
+func (c *client) open(addr string) {
+	raw, err := net.DialTimeout("tcp", addr, 5*time.Second)
+	if err != nil {
+		c.set(func() { c.out.DialErr = "dial proxy: " + err.Error() })
+		c.dead = true
+		return
+	}
+	c.raw, c.stream, c.sbr = raw, raw, bufio.NewReader(raw)
+	raw.SetDeadline(time.Now().Add(ioDeadline))
+	if c.h.Listener == "transparent" {
+		c.set(func() { c.out.Phases[0].Attempted = true })
+		c.handshake(0, raw)
+	}
+}
+
+func (c *client) tlsConfig(phase int) *tls.Config {
+	name := bareHost(c.sc.Phases[phase].Authority)
+	if c.sc.SNI == "other" {
+		name = otherSNI
+	}
+	cfg := &tls.Config{ServerName: name, RootCAs: c.e.mitmRoots}
+	switch c.sc.TLS {
+	case "alpn_h2":
+		cfg.NextProtos = []string{"h2", "http/1.1"}
+	case "tls12":
+		cfg.MinVersion, cfg.MaxVersion = tls.VersionTLS12, tls.VersionTLS12
+	case "tls13":
+		cfg.MinVersion, cfg.MaxVersion = tls.VersionTLS13, tls.VersionTLS13
+	}
+	return cfg
+}
+
+func (c *client) handshake(phase int, under net.Conn) bool {
+	tc := tls.Client(under, c.tlsConfig(phase))
+	if err := tc.Handshake(); err != nil {
+		c.set(func() { c.out.Phases[phase].HandshakeErr = err.Error() })
+		c.dead = true
+		return false
+	}
+	cs := tc.ConnectionState()
+	c.set(func() {
+		po := &c.out.Phases[phase]
+		po.ClientEKM = ekmOf(&cs)
+		po.TLSVersion = cs.Version
+		po.ALPN = cs.NegotiatedProtocol
+	})
+	c.stream, c.sbr = tc, bufio.NewReader(tc)
+	return true
+}
+
+func (c *client) remaining() bool { return !c.dead && c.next < len(c.items) }
+
+// step sends the next message of the script and waits for its answer.
+func (c *client) step() {
+	it := c.items[c.next]
+	c.next++
+	c.raw.SetDeadline(time.Now().Add(ioDeadline))
+	ph := c.sc.Phases[it.phase]
+	if it.connect {
+		c.set(func() { c.out.Phases[it.phase].Attempted = true })
+		head := fmt.Sprintf("CONNECT %s HTTP/1.1\r\nHost: %s\r\nX-C05-Conn: %d\r\nX-C05-Seq: %d\r\n\r\n", ph.Authority, ph.Authority, c.ci, it.seq)
+		early := c.sc.Early && it.phase == 0
+		if early && ph.Inner == "tls" {
+			ec := &earlyConn{Conn: c.stream, br: c.sbr, head: []byte(head)}
+			c.handshake(it.phase, ec)
+			c.set(func() {
+				c.out.Phases[it.phase].ConnectStatus = ec.status
+				c.out.Phases[it.phase].ConnectErr = ec.err
+			})
+			return
+		}
+		msg := head
+		if early && c.next < len(c.items) {
+			nx := c.items[c.next]
+			msg += requestBytes(ph.Authority, nx.form, c.ci, nx.seq)
+			c.sent[nx.seq] = true
+		}
+		if _, err := io.WriteString(c.stream, msg); err != nil {
+			c.set(func() { c.out.Phases[it.phase].ConnectErr = "write CONNECT: " + err.Error() })
+			c.dead = true
+			return
+		}
+		res, err := http.ReadResponse(c.sbr, &http.Request{Method: "CONNECT"})
+		if err != nil {
+			c.set(func() { c.out.Phases[it.phase].ConnectErr = "read CONNECT response: " + err.Error() })
+			c.dead = true
+			return
+		}
+		c.set(func() { c.out.Phases[it.phase].ConnectStatus = res.StatusCode })
+		if res.StatusCode != 200 {
+			c.dead = true
+			return
+		}
+		if ph.Inner == "tls" {
+			c.handshake(it.phase, &bufConn{c.stream, c.sbr})
+		}
+		return
+	}
+	cr := ClientRes{Seq: it.seq}
+	if !c.sent[it.seq] {
+		if _, err := io.WriteString(c.stream, requestBytes(ph.Authority, it.form, c.ci, it.seq)); err != nil {
+			cr.Err = "write request: " + err.Error()
+			c.set(func() { c.out.Client = append(c.out.Client, cr) })
+			c.dead = true
+			return
+		}
+	}
+	res, err := http.ReadResponse(c.sbr, &http.Request{Method: "GET"})
+	if err != nil {
+		cr.Err = "read response: " + err.Error()
+		c.set(func() { c.out.Client = append(c.out.Client, cr) })
+		c.dead = true
+		return
+	}
+	body, err := io.ReadAll(res.Body)
+	cr.Status = res.StatusCode
+	cr.Body = string(body)
+	cr.Hijack = res.Header.Get("X-C05-Hijack") == "1"
+	if err != nil {
+		cr.Err = "read body: " + err.Error()
+		c.dead = true
+	}
+	c.set(func() { c.out.Client = append(c.out.Client, cr) })
+}
+
+// finish answers the hijacker (through the TLS session if there is one) and lets it complete.
+func (c *client) finish(rec *recorder) {
+	if c.raw == nil {
+		return
+	}
+	if c.ci == 0 && c.h.Hijack != "none" && c.next == len(c.items) {
+		c.raw.SetDeadline(time.Now().Add(ioDeadline))
+		if _, err := io.WriteString(c.stream, ack); err != nil {
+			c.set(func() { c.out.AckWriteErr = err.Error() })
+			c.raw.Close()
+		}
+		select {
+		case <-rec.hjDone:
+		case <-time.After(ioDeadline + 3*time.Second):
+		}
+	}
+	c.raw.Close()
+}
+
+// ---- running one history ---------------------------------------------------------------------------------------
+
 func runHistory(e *env, h History) *Outcome {
-	out := &Outcome{H: h}
+	out := &Outcome{H: h, Conns: make([]ConnOut, len(h.Conns))}
+	for i := range out.Conns {
+		out.Conns[i].Phases = make([]PhaseOut, len(h.Conns[i].Phases))
+	}
 	var omu sync.Mutex // guards out while the client goroutine may still be running (hang path)
 	done := make(chan struct{})
 
@@ -571,7 +1092,11 @@ func runHistory(e *env, h History) *Outcome {
 	}
 	defer org.close()
 
-	rec := &recorder{h: h, hjDone: make(chan struct{})}
+	rec := &recorder{h: h, hjSeq: -1, hjDone: make(chan struct{})}
+	if h.Hijack != "none" {
+		its := h.items(0)
+		rec.hjSeq = its[len(its)-1].seq
+	}
 	var dmu sync.Mutex
 	var dials []string
 
@@ -593,11 +1118,7 @@ func runHistory(e *env, h History) *Outcome {
 	p.SetRequestModifier(rec)
 	p.SetResponseModifier(rec)
 
-	base, err := net.Listen("tcp", "127.0.0.1:0")
-	if err != nil {
-		out.SetupErr = "proxy listen: " + err.Error()
-		return out
-	}
+	base := e.front.attach()
 	var l net.Listener = base
 	switch h.Listener {
 	case "shaped":
@@ -609,7 +1130,25 @@ func runHistory(e *env, h History) *Outcome {
 
 	go func() {
 		defer close(done)
-		runClient(e, h, base.Addr().String(), rec, out, &omu)
+		var cls []*client
+		for ci := range h.Conns {
+			cls = append(cls, &client{e: e, h: h, ci: ci, sc: h.Conns[ci], items: h.items(ci), sent: map[int]bool{}, out: &out.Conns[ci], omu: &omu})
+		}
+		for _, c := range cls {
+			c.open(base.Addr().String())
+		}
+		for progress := true; progress; { // interleave the connections message by message
+			progress = false
+			for _, c := range cls {
+				if c.remaining() {
+					c.step()
+					progress = true
+				}
+			}
+		}
+		for _, c := range cls {
+			c.finish(rec)
+		}
 	}()
 
 	select {
@@ -636,8 +1175,10 @@ func runHistory(e *env, h History) *Outcome {
 	dmu.Lock()
 	out.Dials = append([]string(nil), dials...)
 	dmu.Unlock()
-	cp := *out
+	b, _ := json.Marshal(out) // deep copy while holding the lock
 	omu.Unlock()
+	cp := &Outcome{}
+	json.Unmarshal(b, cp)
 
 	// Tear down (not judged).
 	l.Close()
@@ -647,414 +1188,395 @@ func runHistory(e *env, h History) *Outcome {
 	case <-closed:
 	case <-time.After(2 * time.Second):
 	}
-	return &cp
-}
-
-func runClient(e *env, h History, addr string, rec *recorder, out *Outcome, omu *sync.Mutex) {
-	set := func(f func()) { omu.Lock(); f(); omu.Unlock() }
-	raw, err := net.DialTimeout("tcp", addr, 5*time.Second)
-	if err != nil {
-		set(func() { out.ConnectErr = "dial proxy: " + err.Error() })
-		return
-	}
-	defer raw.Close()
-	raw.SetDeadline(time.Now().Add(ioDeadline))
-	var stream net.Conn = raw
-
-	if h.Listener != "transparent" {
-		fmt.Fprintf(raw, "CONNECT %s HTTP/1.1\r\nHost: %s\r\nX-C05-Seq: 0\r\n\r\n", h.authority(), h.authority())
-		br := bufio.NewReader(raw)
-		res, err := http.ReadResponse(br, &http.Request{Method: "CONNECT"})
-		if err != nil {
-			set(func() { out.ConnectErr = "read CONNECT response: " + err.Error() })
-			return
-		}
-		set(func() { out.ConnectStatus = res.StatusCode })
-		if res.StatusCode != 200 {
-			return
-		}
-		stream = &bufConn{raw, br}
-	}
-	if h.Inner == "tls" {
-		tc := tls.Client(stream, &tls.Config{ServerName: hostName, RootCAs: e.mitmRoots})
-		if err := tc.Handshake(); err != nil {
-			set(func() { out.HandshakeErr = err.Error() })
-			return
-		}
-		cs := tc.ConnectionState()
-		set(func() {
-			out.ClientEKM = ekmOf(&cs)
-			if len(cs.PeerCertificates) > 0 {
-				out.PeerCertNames = cs.PeerCertificates[0].DNSNames
-			}
-		})
-		stream = tc
-	}
-	sbr := bufio.NewReader(stream)
-	n := len(h.Forms)
-	for i := 1; i <= n; i++ {
-		stream.SetDeadline(time.Now().Add(ioDeadline))
-		cr := ClientRes{Seq: i}
-		if _, err := io.WriteString(stream, requestBytes(h, i)); err != nil {
-			cr.Err = "write request: " + err.Error()
-			set(func() { out.Client = append(out.Client, cr) })
-			break
-		}
-		res, err := http.ReadResponse(sbr, &http.Request{Method: "GET"})
-		if err != nil {
-			cr.Err = "read response: " + err.Error()
-			set(func() { out.Client = append(out.Client, cr) })
-			break
-		}
-		body, err := io.ReadAll(res.Body)
-		cr.Status = res.StatusCode
-		cr.Body = string(body)
-		cr.Hijack = res.Header.Get("X-C05-Hijack") == "1"
-		if err != nil {
-			cr.Err = "read body: " + err.Error()
-		}
-		set(func() { out.Client = append(out.Client, cr) })
-		if err != nil {
-			break
-		}
-	}
-	if h.Hijack != "none" {
-		// Answer the hijacker (through the TLS session if there is one) and let it finish.
-		stream.SetDeadline(time.Now().Add(ioDeadline))
-		if _, err := io.WriteString(stream, ack); err != nil {
-			set(func() { out.AckWriteErr = err.Error() })
-			raw.Close()
-		}
-		select {
-		case <-rec.hjDone:
-		case <-time.After(ioDeadline + 3*time.Second):
-		}
-	}
+	return cp
 }
 
 // ---- oracle (from the statement) -------------------------------------------------------------------------------
 
 // V is one violated clause on one history.
 type V struct {
-	Entry   string
-	Symptom string
-	Attrs   map[string]string
-	Desc    string
-	H       History
-	O       *Outcome
+	Entry   string            `json:"entry"`
+	Symptom string            `json:"symptom"`
+	Attrs   map[string]string `json:"attrs"`
+	Desc    string            `json:"desc"`
 }
 
 type judgeStats struct {
 	evals    int64
-	obsKeys  map[string]bool
 	requests int64
-}
-
-func reqAttrs(h History, i int) map[string]string {
-	cls := "later_request"
-	if i == 1 {
-		cls = "first_request"
-	}
-	return map[string]string{"listener": h.Listener, "port": strconv.Itoa(h.Port), "cls": cls, "form": h.Forms[i-1]}
+	obsKeys  map[string]bool
 }
 
 func judge(o *Outcome, st *judgeStats) []V {
 	h := o.H
-	E := h.entry()
 	var vs []V
-	add := func(symptom string, attrs map[string]string, format string, a ...interface{}) {
-		vs = append(vs, V{Entry: E, Symptom: symptom, Attrs: attrs, Desc: h.String() + ": " + fmt.Sprintf(format, a...), H: h, O: o})
+	addV := func(entry, symptom string, attrs map[string]string, format string, a ...interface{}) {
+		vs = append(vs, V{Entry: entry, Symptom: symptom, Attrs: attrs, Desc: h.String() + ": " + fmt.Sprintf(format, a...)})
 	}
-	hist := map[string]string{"listener": h.Listener, "port": strconv.Itoa(h.Port)}
 	check := func() { st.evals++ }
+	hist := h.attrs(0, item{})
+	E0 := h.entry(0, 0)
 
 	check()
 	if o.SetupErr != "" {
-		add("harness_setup_error", hist, "%s", o.SetupErr)
+		addV(E0, "harness_setup_error", hist, "%s", o.SetupErr)
 		return vs
 	}
 	check()
 	if o.Crash != "" {
-		add("proxy_process_terminated", hist, "the process running the proxy died during this history: %s", o.Crash)
+		addV(E0, "proxy_process_terminated", hist, "the process running the proxy died during this history: %s", o.Crash)
 		return vs
 	}
 	check()
 	if o.Hang {
-		add("history_never_completes", hist, "no completion within %v (per-I/O deadline %v)", historyDeadline, ioDeadline)
-	}
-	if h.Listener != "transparent" {
-		check()
-		if o.ConnectErr != "" || o.ConnectStatus != 200 {
-			add("connect_not_answered_200", hist, "CONNECT answered status=%d err=%q", o.ConnectStatus, o.ConnectErr)
-			return vs
-		}
-	} else if o.ConnectErr != "" {
-		add("harness_setup_error", hist, "%s", o.ConnectErr)
-		return vs
-	}
-	tlsIn := h.Inner == "tls"
-	if tlsIn {
-		check()
-		if o.HandshakeErr != "" {
-			add("client_tls_handshake_fails", hist, "TLS handshake with the proxy for %s failed: %s", hostName, o.HandshakeErr)
-			return vs
-		}
+		addV(E0, "history_never_completes", hist, "no completion within %v (per-I/O deadline %v)", historyDeadline, ioDeadline)
 	}
 
-	find := func(seq int) *ReqObs {
+	find := func(ci, seq int) *ReqObs {
 		for i := range o.Reqs {
-			if o.Reqs[i].Seq == seq {
+			if o.Reqs[i].Conn == ci && o.Reqs[i].Seq == seq {
 				return &o.Reqs[i]
 			}
 		}
 		return nil
 	}
-	count := func(seq int) int {
+	count := func(ci, seq int) int {
 		n := 0
 		for i := range o.Reqs {
-			if o.Reqs[i].Seq == seq {
+			if o.Reqs[i].Conn == ci && o.Reqs[i].Seq == seq {
 				n++
 			}
 		}
 		return n
 	}
-	var connectObs *ReqObs
-	if h.Listener != "transparent" {
-		connectObs = find(0)
-	}
-	firstSession := -2
-	n := len(h.Forms)
-	for i := 1; i <= n; i++ {
-		form := h.Forms[i-1]
-		at := reqAttrs(h, i)
-		hijackReqHere := h.Hijack == "req" && i == n
-		hijackHere := h.Hijack != "none" && i == n
-		var cr *ClientRes
-		for k := range o.Client {
-			if o.Client[k].Seq == i {
-				cr = &o.Client[k]
-			}
-		}
-		if cr == nil {
-			// The client never got as far as sending request i (an earlier request already failed and was
-			// reported): nothing to judge.
-			continue
-		}
-		st.requests++
-		ob := find(i)
-		check()
-		if ob == nil {
-			add("request_not_presented_to_modifiers", at, "request %d (%s) was sent but the request modifier never saw it; client: status=%d err=%q", i, form, cr.Status, cr.Err)
-			continue
-		}
-		st.obsKeys[fmt.Sprintf("%s|%s|%s|%s|scheme=%s|secure=%v|tls=%v|hostok=%v|res=%v", E, h.Listener, at["cls"], form, ob.Scheme, ob.Secure, ob.TLS, h.hostOK(ob.URLHost), ob.ResSeen)] = true
-		check()
-		if c := count(i); c != 1 {
-			add("request_presented_more_than_once", at, "request %d seen %d times by the request modifier", i, c)
-		}
-		hostBad := false
-		if tlsIn {
-			// "presented to modifiers with scheme https"
-			check()
-			if ob.Scheme != "https" {
-				add("scheme_not_https", at, "request %d (%s) decrypted from the tunnel is shown to the request modifier with URL.Scheme=%q", i, form, ob.Scheme)
-			} else if ob.ResSeen && ob.ResScheme != "https" {
-				add("scheme_not_https_at_response_modifier", at, "request %d (%s): URL.Scheme=%q when the response modifier runs", i, form, ob.ResScheme)
-			}
-			// "a session marked secure"
-			check()
-			if !ob.HasCtx {
-				add("no_context_for_request", at, "request %d (%s): martian.NewContext(req) is nil in the request modifier", i, form)
-			} else if !ob.Secure {
-				add("session_not_secure", at, "request %d (%s): ctx.Session().IsSecure()=false in the request modifier", i, form)
-			} else if ob.ResSeen && !ob.ResSecure {
-				add("session_not_secure_at_response_modifier", at, "request %d (%s): IsSecure()=false in the response modifier", i, form)
-			}
-			// "the connection's TLS state attached"
-			check()
-			if !ob.TLS {
-				add("tls_state_missing", at, "request %d (%s): req.TLS == nil in the request modifier (scheme=%s secure=%v)", i, form, ob.Scheme, ob.Secure)
-			} else if ob.TLSEKM != o.ClientEKM || !ob.TLSDone {
-				add("tls_state_not_of_this_connection", at, "request %d (%s): req.TLS is not the state of the client's TLS connection (keying material %s vs client %s, handshake complete=%v)", i, form, ob.TLSEKM, o.ClientEKM, ob.TLSDone)
-			} else if ob.ResSeen && !ob.ResTLS {
-				add("tls_state_missing_at_response_modifier", at, "request %d (%s): req.TLS == nil when the response modifier runs", i, form)
-			}
-			// "the tunnel's authority as host when none is given"
-			check()
-			if form == "nohost" {
-				if E == "connect_tls" && !h.hostOK(ob.URLHost) {
-					hostBad = true
-					add("url_host_not_tunnel_authority", at, "request %d has no Host header and an origin-form target inside the tunnel to %s, but the modifier sees URL.Host=%q (client then got status %d)", i, h.authority(), ob.URLHost, cr.Status)
-				}
-				// transparent listener: there is no CONNECT and hence no tunnel authority; URL.Host is not judged.
-			} else if !h.hostOK(ob.URLHost) {
-				hostBad = true
-				add("url_host_not_as_given", at, "request %d (%s) names host %s but the modifier sees URL.Host=%q", i, form, h.hostGiven(), ob.URLHost)
-			}
-		} else {
-			// "Traffic inside a CONNECT tunnel that does not begin with a TLS handshake is handled as plain HTTP on an
-			// insecure session."
-			check()
-			if ob.Scheme != "http" {
-				add("plaintext_scheme_not_http", at, "plaintext request %d (%s) inside CONNECT shown with URL.Scheme=%q", i, form, ob.Scheme)
-			}
-			check()
-			if ob.Secure || (ob.ResSeen && ob.ResSecure) {
-				add("plaintext_session_marked_secure", at, "plaintext request %d (%s) inside CONNECT: session IsSecure()=true", i, form)
-			}
-			check()
-			if ob.TLS {
-				add("plaintext_request_has_tls_state", at, "plaintext request %d (%s) inside CONNECT has req.TLS != nil", i, form)
-			}
-		}
-		// "The CONNECT request and all requests inside its tunnel share one session"
-		check()
-		if connectObs != nil && ob.Session != connectObs.Session {
-			add("session_not_shared_with_connect", at, "request %d (%s) runs in session %s, the CONNECT ran in session %s", i, form, ob.SessionID, connectObs.SessionID)
-		} else if firstSession != -2 && ob.Session != firstSession {
-			add("session_changes_between_requests", at, "request %d (%s) runs in another session (%s) than request 1", i, form, ob.SessionID)
-		} else if ob.ResSeen && ob.ResSession != ob.Session {
-			add("session_changes_between_modifiers", at, "request %d (%s): response modifier sees another session than the request modifier", i, form)
-		}
-		if firstSession == -2 {
-			firstSession = ob.Session
-		}
+	connSessions := make([]map[int]bool, len(h.Conns))
 
-		// "forwarded upstream over TLS, never in cleartext"
-		var up []OriginReq
-		for _, r := range o.OriginReqs {
-			if r.Seq == i {
-				up = append(up, r)
-			}
+	for ci, sc := range h.Conns {
+		co := &o.Conns[ci]
+		connSessions[ci] = map[int]bool{}
+		if co.DialErr != "" {
+			addV(E0, "harness_setup_error", hist, "%s", co.DialErr)
+			continue
 		}
-		if !hijackReqHere {
-			check()
-			clear, overTLS := 0, 0
-			for _, r := range up {
-				if r.TLS {
-					overTLS++
-				} else {
-					clear++
+		items := h.items(ci)
+		connSession := -2 // session of the first message seen on this connection
+		var connectObs *ReqObs
+		stop := false
+		for k := 0; k < len(items) && !stop; k++ {
+			it := items[k]
+			ph := sc.Phases[it.phase]
+			po := &co.Phases[it.phase]
+			E := h.entry(ci, it.phase)
+			tlsIn := ph.Inner == "tls"
+			pat := h.attrs(ci, item{})
+
+			if it.connect || (h.Listener == "transparent" && k == 0) {
+				// opening of a tunnel
+				if !po.Attempted {
+					stop = true // an earlier message already failed (reported there)
+					continue
 				}
-			}
-			judgedHost := !(form == "nohost" && E != "connect_tls") // no authority to fall back on is stated there
-			switch {
-			case tlsIn && clear > 0:
-				add("forwarded_upstream_in_cleartext", at, "request %d (%s) decrypted from the TLS tunnel reached the origin over a cleartext connection (dials: %v)", i, form, o.Dials)
-			case !tlsIn && overTLS > 0:
-				add("plaintext_request_forwarded_over_tls", at, "plaintext request %d (%s) inside CONNECT reached the origin over TLS, not as plain HTTP", i, form)
-			case len(up) == 0 && judgedHost && !hostBad:
-				add("not_forwarded_upstream", at, "request %d (%s) never reached the origin (client status=%d err=%q, dials: %v)", i, form, cr.Status, cr.Err, o.Dials)
-			case len(up) > 1:
-				add("forwarded_more_than_once", at, "request %d (%s) reached the origin %d times", i, form, len(up))
-			}
-		}
-		// "its response returns inside the same TLS session" (the client reads through its TLS connection; anything
-		// not encrypted under that session's keys is a read error)
-		if !hijackHere {
-			check()
-			kind := "clear" // how the origin was reached for this request decides what it answered
-			if len(up) == 1 && up[0].TLS {
-				kind = "tls"
-			}
-			switch {
-			case cr.Err != "" && tlsIn:
-				add("response_not_inside_client_tls_session", at, "request %d (%s): the client could not read a response through its TLS session: %s", i, form, cr.Err)
-			case cr.Err != "":
-				add("plaintext_response_not_delivered", at, "request %d (%s): the client could not read a response: %s", i, form, cr.Err)
-			case len(up) == 1 && (cr.Status != 200 || cr.Body != originBody(kind, i)):
-				add("response_is_not_the_origins", at, "request %d (%s): origin answered %q but the client read status=%d body=%q", i, form, originBody(kind, i), cr.Status, cr.Body)
-			}
-		}
-	}
-	// Connection-level cleartext contact (even without a parsable request).
-	if tlsIn {
-		check()
-		for _, c := range o.OriginConns {
-			if !c.TLS {
-				known := false
-				for _, r := range o.OriginReqs {
-					if !r.TLS {
-						known = true
+				if it.connect {
+					check()
+					if po.ConnectErr != "" || po.ConnectStatus != 200 {
+						if !(po.HandshakeErr != "" && po.ConnectStatus == 0 && po.ConnectErr == "") {
+							addV(E, "connect_not_answered_200", pat, "CONNECT %s answered status=%d err=%q", ph.Authority, po.ConnectStatus, po.ConnectErr)
+							stop = true
+							continue
+						}
+					}
+					connectObs = find(ci, it.seq)
+					check()
+					if connectObs == nil {
+						addV(E, "connect_not_presented_to_modifiers", pat, "the CONNECT to %s was answered 200 but never shown to the request modifier", ph.Authority)
+					} else {
+						connSessions[ci][connectObs.Session] = true
+						if connSession == -2 {
+							connSession = connectObs.Session
+						} else if connectObs.Session != connSession {
+							addV(E, "session_changes_between_requests", pat, "the second CONNECT on the connection runs in another session (%s) than the first", connectObs.SessionID)
+						}
 					}
 				}
-				if !known {
-					add("upstream_cleartext_connection", hist, "the origin was contacted on a connection that does not start with a TLS ClientHello (first byte %s; dials %v)", c.First, o.Dials)
+				if tlsIn {
+					check()
+					if po.HandshakeErr != "" {
+						addV(E, "client_tls_handshake_fails", pat, "TLS handshake with the proxy (client ServerName %q, profile %s, CONNECT status %d) failed: %s", sniName(sc, ph), sc.TLS, po.ConnectStatus, po.HandshakeErr)
+						stop = true
+						continue
+					}
+					check()
+					if po.ALPN == "h2" {
+						addV(E, "h2_negotiated_without_h2_support", pat, "the proxy's MITM config has no HTTP/2 support but ALPN selected h2")
+					}
 				}
+				if it.connect {
+					continue
+				}
+			}
+
+			// a request inside the tunnel
+			at := h.attrs(ci, it)
+			hijackReqHere := ci == 0 && h.Hijack == "req" && k == len(items)-1
+			hijackHere := ci == 0 && h.Hijack != "none" && k == len(items)-1
+			var cr *ClientRes
+			for x := range co.Client {
+				if co.Client[x].Seq == it.seq {
+					cr = &co.Client[x]
+				}
+			}
+			if cr == nil {
+				stop = true // never sent: an earlier message on this connection already failed and was reported
+				continue
+			}
+			st.requests++
+			ob := find(ci, it.seq)
+			check()
+			if ob == nil {
+				addV(E, "request_not_presented_to_modifiers", at, "request %d (%s) of the tunnel was sent but the request modifier never saw it; client: status=%d err=%q", it.idx, it.form, cr.Status, cr.Err)
+				continue
+			}
+			st.obsKeys[fmt.Sprintf("%s|%s|%s|%v|scheme=%s|secure=%v|tls=%v|v=%x|hostok=%v|res=%v", E, h.Space, h.Listener, at, ob.Scheme, ob.Secure, ob.TLS, ob.TLSVersion, hostOK(ph.Authority, ob.URLHost), ob.ResSeen)] = true
+			check()
+			if c := count(ci, it.seq); c != 1 {
+				addV(E, "request_presented_more_than_once", at, "request %d seen %d times by the request modifier", it.idx, c)
+			}
+			hostBad := false
+			if tlsIn {
+				// "presented to modifiers with scheme https"
+				check()
+				if ob.Scheme != "https" {
+					addV(E, "scheme_not_https", at, "request %d (%s) decrypted from the tunnel is shown to the request modifier with URL.Scheme=%q", it.idx, it.form, ob.Scheme)
+				} else if ob.ResSeen && ob.ResScheme != "https" {
+					addV(E, "scheme_not_https_at_response_modifier", at, "request %d (%s): URL.Scheme=%q when the response modifier runs", it.idx, it.form, ob.ResScheme)
+				}
+				// "a session marked secure"
+				check()
+				if !ob.HasCtx {
+					addV(E, "no_context_for_request", at, "request %d (%s): martian.NewContext(req) is nil in the request modifier", it.idx, it.form)
+				} else if !ob.Secure {
+					addV(E, "session_not_secure", at, "request %d (%s): ctx.Session().IsSecure()=false in the request modifier", it.idx, it.form)
+				} else if ob.ResSeen && !ob.ResSecure {
+					addV(E, "session_not_secure_at_response_modifier", at, "request %d (%s): IsSecure()=false in the response modifier", it.idx, it.form)
+				}
+				// "the connection's TLS state attached"
+				check()
+				if !ob.TLS {
+					addV(E, "tls_state_missing", at, "request %d (%s): req.TLS == nil in the request modifier (scheme=%s secure=%v)", it.idx, it.form, ob.Scheme, ob.Secure)
+				} else if ob.TLSEKM != po.ClientEKM || !ob.TLSDone || ob.TLSVersion != po.TLSVersion {
+					addV(E, "tls_state_not_of_this_connection", at, "request %d (%s): req.TLS is not the state of the client's TLS connection (keying material %s vs client %s, version %x vs %x, handshake complete=%v)", it.idx, it.form, ob.TLSEKM, po.ClientEKM, ob.TLSVersion, po.TLSVersion, ob.TLSDone)
+				} else if ob.ResSeen && !ob.ResTLS {
+					addV(E, "tls_state_missing_at_response_modifier", at, "request %d (%s): req.TLS == nil when the response modifier runs", it.idx, it.form)
+				}
+				// "the tunnel's authority as host when none is given"
+				check()
+				if it.form == "nohost" {
+					if h.Listener != "transparent" && !hostOK(ph.Authority, ob.URLHost) {
+						hostBad = true
+						addV(E, "url_host_not_tunnel_authority", at, "request %d has no Host header and an origin-form target inside the tunnel to %s, but the modifier sees URL.Host=%q (client then got status %d)", it.idx, ph.Authority, ob.URLHost, cr.Status)
+					}
+					// transparent listener: there is no CONNECT and hence no tunnel authority; URL.Host is not judged.
+				} else if !hostOK(ph.Authority, ob.URLHost) {
+					hostBad = true
+					addV(E, "url_host_not_as_given", at, "request %d (%s) names host %s but the modifier sees URL.Host=%q", it.idx, it.form, hostGiven(ph.Authority), ob.URLHost)
+				}
+			} else {
+				// "Traffic inside a CONNECT tunnel that does not begin with a TLS handshake is handled as plain HTTP on an
+				// insecure session."
+				check()
+				if ob.Scheme != "http" {
+					addV(E, "plaintext_scheme_not_http", at, "plaintext request %d (%s) inside CONNECT shown with URL.Scheme=%q", it.idx, it.form, ob.Scheme)
+				}
+				check()
+				if ob.Secure || (ob.ResSeen && ob.ResSecure) {
+					addV(E, "plaintext_session_marked_secure", at, "plaintext request %d (%s) inside CONNECT: session IsSecure()=true", it.idx, it.form)
+				}
+				check()
+				if ob.TLS {
+					addV(E, "plaintext_request_has_tls_state", at, "plaintext request %d (%s) inside CONNECT has req.TLS != nil", it.idx, it.form)
+				}
+			}
+			// "The CONNECT request and all requests inside its tunnel share one session"
+			check()
+			connSessions[ci][ob.Session] = true
+			if connectObs != nil && ob.Session != connectObs.Session {
+				addV(E, "session_not_shared_with_connect", at, "request %d (%s) runs in session %s, the CONNECT ran in session %s", it.idx, it.form, ob.SessionID, connectObs.SessionID)
+			} else if connSession != -2 && ob.Session != connSession {
+				addV(E, "session_changes_between_requests", at, "request %d (%s) runs in another session (%s) than the first message on the connection", it.idx, it.form, ob.SessionID)
+			} else if ob.ResSeen && ob.ResSession != ob.Session {
+				addV(E, "session_changes_between_modifiers", at, "request %d (%s): response modifier sees another session than the request modifier", it.idx, it.form)
+			}
+			if connSession == -2 {
+				connSession = ob.Session
+			}
+
+			// "forwarded upstream over TLS, never in cleartext"
+			var up []OriginReq
+			for _, r := range o.OriginReqs {
+				if r.Conn == ci && r.Seq == it.seq {
+					up = append(up, r)
+				}
+			}
+			if !hijackReqHere {
+				check()
+				clear, overTLS := 0, 0
+				for _, r := range up {
+					if r.TLS {
+						overTLS++
+					} else {
+						clear++
+					}
+				}
+				judgedHost := !(it.form == "nohost" && !(tlsIn && h.Listener != "transparent")) // no fallback authority is stated there
+				switch {
+				case tlsIn && clear > 0:
+					addV(E, "forwarded_upstream_in_cleartext", at, "request %d (%s) decrypted from the TLS tunnel reached the origin over a cleartext connection (dials: %v)", it.idx, it.form, o.Dials)
+				case !tlsIn && overTLS > 0:
+					addV(E, "plaintext_request_forwarded_over_tls", at, "plaintext request %d (%s) inside CONNECT reached the origin over TLS, not as plain HTTP", it.idx, it.form)
+				case len(up) == 0 && judgedHost && !hostBad:
+					addV(E, "not_forwarded_upstream", at, "request %d (%s) never reached the origin (client status=%d err=%q, dials: %v)", it.idx, it.form, cr.Status, cr.Err, o.Dials)
+				case len(up) > 1:
+					addV(E, "forwarded_more_than_once", at, "request %d (%s) reached the origin %d times", it.idx, it.form, len(up))
+				}
+			}
+			// "its response returns inside the same TLS session" (the client reads through its TLS connection; anything
+			// not encrypted under that session's keys is a read error)
+			if !hijackHere {
+				check()
+				kind := "clear" // how the origin was reached for this request decides what it answered
+				if len(up) == 1 && up[0].TLS {
+					kind = "tls"
+				}
+				switch {
+				case cr.Err != "" && tlsIn:
+					addV(E, "response_not_inside_client_tls_session", at, "request %d (%s): the client could not read a response through its TLS session: %s", it.idx, it.form, cr.Err)
+				case cr.Err != "":
+					addV(E, "plaintext_response_not_delivered", at, "request %d (%s): the client could not read a response: %s", it.idx, it.form, cr.Err)
+				case len(up) == 1 && (cr.Status != 200 || cr.Body != originBody(kind, ci, it.seq)):
+					addV(E, "response_is_not_the_origins", at, "request %d (%s): origin answered %q but the client read status=%d body=%q", it.idx, it.form, originBody(kind, ci, it.seq), cr.Status, cr.Body)
+				}
+			}
+
+			// "a modifier that hijacks that session is handed the decrypted connection"
+			if hijackHere {
+				hat := h.attrs(ci, it)
+				hat["pos"] = h.Hijack
+				hat["via"] = h.Via
+				check()
+				ho := o.Hijack
+				switch {
+				case ho == nil || !ho.Ran:
+					if !(h.Hijack == "res" && !ob.ResSeen) {
+						addV(E, "hijacker_never_completed", hat, "the hijacking modifier did not complete")
+					}
+				case ho.Err != "":
+					addV(E, "hijack_refused", hat, "Session.Hijack(): %s", ho.Err)
+				default:
+					clientOK := cr.Err == "" && cr.Hijack && cr.Body == marker
+					hijackerOK := ho.Read == strconv.Quote(ack)
+					if !clientOK || !hijackerOK {
+						layer := "its TLS session"
+						if !tlsIn {
+							layer = "the tunnel"
+						}
+						addV(E, "hijacker_not_on_decrypted_connection", hat,
+							"hijack in the %s modifier of request %d using the %s from Session.Hijack() (conn type %s): the client reading through %s got status=%d body=%q err=%q (want the marker); the hijacker read %s err=%q (want %q), write err=%q",
+							h.Hijack, it.idx, map[string]string{"conn": "net.Conn", "brw": "*bufio.ReadWriter"}[h.Via], ho.ConnType, layer, cr.Status, cr.Body, cr.Err, ho.Read, ho.ReadErr, ack, ho.WriteErr)
+					}
+				}
+			}
+		}
+	}
+	// Connection-level cleartext contact (even without a parsable request) when every tunnel of the history is TLS.
+	allTLS := true
+	for _, sc := range h.Conns {
+		for _, p := range sc.Phases {
+			if p.Inner != "tls" {
+				allTLS = false
+			}
+		}
+	}
+	if allTLS {
+		check()
+		clearReq := false
+		for _, r := range o.OriginReqs {
+			if !r.TLS {
+				clearReq = true
+			}
+		}
+		for _, c := range o.OriginConns {
+			if !c.TLS && !clearReq {
+				addV(E0, "upstream_cleartext_connection", hist, "the origin was contacted on a connection that does not start with a TLS ClientHello (first byte %s; dials %v)", c.First, o.Dials)
 				break
 			}
 		}
 	}
-	// "a modifier that hijacks that session is handed the decrypted connection"
-	if h.Hijack != "none" {
-		var last *ClientRes
-		for k := range o.Client {
-			if o.Client[k].Seq == n {
-				last = &o.Client[k]
-			}
-		}
-		if last != nil && find(n) != nil { // the hijacking request was sent and reached the modifiers
-			at := reqAttrs(h, n)
-			at["pos"] = h.Hijack
-			at["via"] = h.Via
-			check()
-			ho := o.Hijack
-			switch {
-			case ho == nil || !ho.Ran:
-				if !(h.Hijack == "res" && !find(n).ResSeen) {
-					add("hijacker_never_completed", at, "the hijacking modifier did not complete")
-				}
-			case ho.Err != "":
-				add("hijack_refused", at, "Session.Hijack(): %s", ho.Err)
-			default:
-				clientOK := last.Err == "" && last.Hijack && last.Body == marker
-				hijackerOK := ho.Read == strconv.Quote(ack)
-				if !clientOK || !hijackerOK {
-					layer := "its TLS session"
-					if !tlsIn {
-						layer = "the tunnel"
-					}
-					add("hijacker_not_on_decrypted_connection", at,
-						"hijack in the %s modifier of request %d using the %s from Session.Hijack() (conn type %s): the client reading through %s got status=%d body=%q err=%q (want the marker); the hijacker read %s err=%q (want %q), write err=%q",
-						h.Hijack, n, map[string]string{"conn": "net.Conn", "brw": "*bufio.ReadWriter"}[h.Via], ho.ConnType, layer, last.Status, last.Body, last.Err, ho.Read, ho.ReadErr, ack, ho.WriteErr)
-				}
+	// Two tunnels on two connections: their sessions must not mix.
+	if len(h.Conns) == 2 {
+		check()
+		for s := range connSessions[0] {
+			if connSessions[1][s] {
+				addV(E0, "session_shared_between_connections", hist, "messages of the two client connections ran in the same martian session")
+				break
 			}
 		}
 	}
 	return vs
 }
 
-// attribute domains, used to turn (entry, symptom, set of failing scenario attributes) into a signature:
-// an attribute is mentioned in the signature only if the symptom does NOT occur for all of its values.
-var attrOrder = []string{"listener", "port", "cls", "form", "pos", "via"}
-
-func attrDomain(entry, attr string) []string {
-	switch attr {
-	case "listener":
-		if entry == "transparent_tls" {
-			return []string{"transparent"}
-		}
-		return []string{"plain", "shaped"}
-	case "port":
-		return []string{"443", "8443"}
-	case "cls":
-		return []string{"first_request", "later_request"}
-	case "form":
-		return forms
-	case "pos":
-		return []string{"req", "res"}
-	case "via":
-		return []string{"brw", "conn"}
+func sniName(sc Script, ph Phase) string {
+	if sc.SNI == "other" {
+		return otherSNI
 	}
-	return nil
+	return bareHost(ph.Authority)
 }
 
-func signatures(vs []V) map[*V]string {
+// Signatures: <entry>[:attr=values...]:<symptom>; an attribute is mentioned only if the symptom does NOT occur for
+// all values that attribute takes among the enumerated requests of that entry.
+var attrOrder = []string{"listener", "port", "auth", "sni", "tls", "early", "peer", "cls", "form", "pos", "via"}
+
+func computeDomains(hs []History) map[string]map[string]map[string]bool {
+	dom := map[string]map[string]map[string]bool{}
+	put := func(e string, a map[string]string) {
+		if dom[e] == nil {
+			dom[e] = map[string]map[string]bool{}
+		}
+		for k, v := range a {
+			if dom[e][k] == nil {
+				dom[e][k] = map[string]bool{}
+			}
+			dom[e][k][v] = true
+		}
+	}
+	for _, h := range hs {
+		for ci := range h.Conns {
+			items := h.items(ci)
+			for k, it := range items {
+				if it.connect {
+					continue
+				}
+				a := h.attrs(ci, it)
+				if ci == 0 && h.Hijack != "none" && k == len(items)-1 {
+					a["pos"], a["via"] = h.Hijack, h.Via
+				}
+				put(h.entry(ci, it.phase), a)
+			}
+		}
+	}
+	return dom
+}
+
+type vref struct {
+	id int
+	v  *V
+}
+
+func signatures(vs []vref, dom map[string]map[string]map[string]bool) map[*V]string {
 	type key struct{ e, s string }
 	groups := map[key][]*V{}
-	for i := range vs {
-		k := key{vs[i].Entry, vs[i].Symptom}
-		groups[k] = append(groups[k], &vs[i])
+	for _, r := range vs {
+		k := key{r.v.Entry, r.v.Symptom}
+		groups[k] = append(groups[k], r.v)
 	}
 	out := map[*V]string{}
 	for k, g := range groups {
@@ -1069,9 +1591,8 @@ func signatures(vs []V) map[*V]string {
 			if len(seen) == 0 {
 				continue
 			}
-			dom := attrDomain(k.e, a)
 			all := true
-			for _, d := range dom {
+			for d := range dom[k.e][a] {
 				if !seen[d] {
 					all = false
 				}
@@ -1097,12 +1618,45 @@ func signatures(vs []V) map[*V]string {
 
 // ---- worker / sharding -----------------------------------------------------------------------------------------
 
+// Result is what a worker reports for one history (the full outcome only where it is needed).
+type Result struct {
+	ID          int      `json:"id"`
+	Vs          []V      `json:"vs,omitempty"`
+	Evals       int64    `json:"evals"`
+	Requests    int64    `json:"requests"`
+	Transitions int64    `json:"transitions"`
+	Obs         []string `json:"obs,omitempty"`
+	Hang        bool     `json:"hang,omitempty"`
+	Crash       string   `json:"crash,omitempty"`
+	Setup       bool     `json:"setup_failed,omitempty"`
+	Outcome     *Outcome `json:"outcome,omitempty"`
+}
+
+func evaluate(o *Outcome) *Result {
+	st := &judgeStats{obsKeys: map[string]bool{}}
+	r := &Result{ID: o.H.ID, Hang: o.Hang, Crash: o.Crash, Setup: o.SetupErr != ""}
+	r.Vs = judge(o, st)
+	r.Evals, r.Requests = st.evals, st.requests
+	for k := range st.obsKeys {
+		r.Obs = append(r.Obs, k)
+	}
+	r.Transitions = int64(len(o.Reqs))
+	for _, q := range o.Reqs {
+		if q.ResSeen {
+			r.Transitions++
+		}
+	}
+	return r
+}
+
 type line struct {
-	Start   *int     `json:"start,omitempty"`
-	Outcome *Outcome `json:"outcome,omitempty"`
+	Start  *int    `json:"start,omitempty"`
+	Result *Result `json:"result,omitempty"`
 }
 
 func mine(k, shard, n, seed int) bool { return (k+seed)%n == shard }
+
+func sampled(id, total int) bool { return id%(total/8+1) == 0 }
 
 func workerMain(hs []History, shard, n int) {
 	mlog.SetLevel(mlog.Silent)
@@ -1117,14 +1671,17 @@ func workerMain(hs []History, shard, n int) {
 		fmt.Fprintln(os.Stderr, "worker: cannot create CA / certificates:", err)
 		os.Exit(2)
 	}
+	w := bufio.NewWriter(f)
 	put := func(l line) {
 		b, _ := json.Marshal(l)
-		f.Write(append(b, '\n'))
+		w.Write(append(b, '\n'))
+		w.Flush()
 	}
 	only := -1
 	if v := os.Getenv("VERIF_C05_ONLY"); v != "" {
 		only, _ = strconv.Atoi(v)
 	}
+	kept := map[string]int{}
 	for k := range hs {
 		if only >= 0 && k != only {
 			continue
@@ -1135,19 +1692,37 @@ func workerMain(hs []History, shard, n int) {
 		id := k
 		put(line{Start: &id})
 		o := runHistory(e, hs[k])
+		if o.Hang {
+			// goroutines of the hung history may still own connections: give later histories fresh listeners
+			if err := e.resetHubs(); err != nil {
+				fmt.Fprintln(os.Stderr, "worker: cannot listen:", err)
+				os.Exit(2)
+			}
+		}
 		if only >= 0 {
 			// Attribution run: if a proxy goroutine is panicking, let it take the process down before the
 			// outcome is reported as a clean completion.
 			time.Sleep(100 * time.Millisecond)
 		}
-		put(line{Outcome: o})
+		r := evaluate(o)
+		keep := sampled(k, len(hs))
+		for _, v := range r.Vs {
+			if kept[v.Entry+"|"+v.Symptom] < 2 {
+				kept[v.Entry+"|"+v.Symptom]++
+				keep = true
+			}
+		}
+		if keep {
+			r.Outcome = o
+		}
+		put(line{Result: r})
 	}
 	f.Close()
 	os.Exit(0)
 }
 
-func readShard(path string) (outs map[int]*Outcome, started []int) {
-	outs = map[int]*Outcome{}
+func readShard(path string) (outs map[int]*Result, started []int) {
+	outs = map[int]*Result{}
 	f, err := os.Open(path)
 	if err != nil {
 		return
@@ -1163,8 +1738,8 @@ func readShard(path string) (outs map[int]*Outcome, started []int) {
 		if l.Start != nil {
 			started = append(started, *l.Start)
 		}
-		if l.Outcome != nil {
-			outs[l.Outcome.H.ID] = l.Outcome
+		if l.Result != nil {
+			outs[l.Result.ID] = l.Result
 		}
 	}
 	return
@@ -1192,17 +1767,24 @@ func crashText(err error, out string) string {
 	return fmt.Sprintf("worker exit: %v; output tail: %s", err, tail(out, 1500))
 }
 
+func crashResult(h History, text string) *Result {
+	o := &Outcome{H: h, Crash: text}
+	r := evaluate(o)
+	r.Outcome = o
+	return r
+}
+
 // runIsolated runs one history alone in a fresh process.
-func runIsolated(h History, file string) *Outcome {
+func runIsolated(h History, file string) *Result {
 	os.Remove(file)
 	cmd := exec.Command(os.Args[0], os.Args[1:]...)
 	cmd.Env = append(os.Environ(), "VERIF_SHARD=0/1", "VERIF_SHARD_OUT="+file, "GOMAXPROCS=2", "VERIF_C05_ONLY="+strconv.Itoa(h.ID))
 	b, err := cmd.CombinedOutput()
 	got, _ := readShard(file)
-	if o, ok := got[h.ID]; ok && err == nil {
-		return o
+	if r, ok := got[h.ID]; ok && err == nil {
+		return r
 	}
-	return &Outcome{H: h, Crash: crashText(err, string(b))}
+	return crashResult(h, crashText(err, string(b)))
 }
 
 func rerunShard(shard, n, from int, file string) (string, error) {
@@ -1214,11 +1796,7 @@ func rerunShard(shard, n, from int, file string) (string, error) {
 
 func main() {
 	tier := lib.Tier()
-	maxN := 2
-	if tier == "thorough" {
-		maxN = 3
-	}
-	hs := enumerate(maxN)
+	hs := enumerate(tier)
 
 	if shard, n := lib.ShardEnv(); n > 0 {
 		workerMain(hs, shard, n)
@@ -1233,11 +1811,13 @@ func main() {
 	rep := lib.NewReport("C05", "model_checking")
 	rep.Assumptions = []string{
 		"client, proxy and origin talk over real loopback TCP with the real crypto/tls; the origin is reached through Proxy.SetDial, every dialled address is mapped to the in-process origin",
-		"the proxy uses its own default http.Transport; only TLSClientConfig.RootCAs is set (to the harness origin's certificate)",
-		"'tunnel authority' = the CONNECT target (" + hostName + ":443 and :8443 are enumerated); URL.Host equal to it, or to the bare host name when the port is the https default, is accepted",
-		"transparent-TLS listener: there is no CONNECT, so the no-Host clause (URL.Host = tunnel authority) is not judged there; all other clauses are",
+		"the proxy uses its own default http.Transport; only TLSClientConfig.RootCAs is set (to the harness origin's certificate, valid for " + hostName + ", 127.0.0.1 and ::1)",
+		"'tunnel authority' = the CONNECT target; URL.Host equal to it (case-insensitively), or to it without :443 when the port is the https default, is accepted",
+		"transparent-TLS listener: there is no CONNECT, so the no-Host clause (URL.Host = tunnel authority) is not judged there; all other clauses are. It needs SNI, so IP-literal hosts are only combined with a different SNI name there",
 		"no-Host requests are HTTP/1.0 origin-form with Connection: keep-alive so that later requests can follow on the connection",
-		"hang deadlines (12 s per I/O, 40 s per history) are liveness guards only",
+		"a second CONNECT inside a plaintext tunnel opens a new tunnel on the same connection and session; requests after it are judged against the second tunnel (its authority, its content)",
+		"'same segment' = one Write call on a loopback TCP connection",
+		"hang deadlines (12 s per I/O, 60 s per history) are liveness guards only",
 		"hijack at the CONNECT request itself (before any decryption exists) belongs to C02 and is not enumerated",
 	}
 
@@ -1258,7 +1838,7 @@ func main() {
 	// Collect. A worker that died is resumed after the history it died in; because a panicking proxy goroutine
 	// closes the client connection (deferred) an instant before the process dies, the history that finished just
 	// before may be the real culprit: both are re-run alone in a fresh process, and that run is authoritative.
-	results := map[int]*Outcome{}
+	results := map[int]*Result{}
 	var rmu sync.Mutex
 	var engineErr string
 	var wg sync.WaitGroup
@@ -1308,26 +1888,26 @@ func main() {
 						continue
 					}
 					isolated[id] = true
-					o := runIsolated(hs[id], filepath.Join(dir, fmt.Sprintf("only-%d.json", id)))
-					if o.Crash != "" {
+					r := runIsolated(hs[id], filepath.Join(dir, fmt.Sprintf("only-%d.json", id)))
+					if r.Crash != "" {
 						reproduced = true
 					}
 					rmu.Lock()
-					results[id] = o
+					results[id] = r
 					rmu.Unlock()
 				}
 				if !reproduced {
 					rmu.Lock()
-					results[missing] = &Outcome{H: hs[missing], Crash: "worker died while running this history (not reproduced when re-run alone): " + crashText(werr, wout)}
+					results[missing] = crashResult(hs[missing], "worker died while running this history (not reproduced when re-run alone): "+crashText(werr, wout))
 					rmu.Unlock()
 				}
 				if resumes >= 2 {
 					// Third death in this shard: stop bulk runs, every remaining history gets its own process.
 					for k := missing + 1; k < len(hs); k++ {
 						if mine(k, s, nshards, lib.Seed()) {
-							o := runIsolated(hs[k], filepath.Join(dir, fmt.Sprintf("only-%d.json", k)))
+							r := runIsolated(hs[k], filepath.Join(dir, fmt.Sprintf("only-%d.json", k)))
 							rmu.Lock()
-							results[k] = o
+							results[k] = r
 							rmu.Unlock()
 						}
 					}
@@ -1343,69 +1923,77 @@ func main() {
 		os.Exit(2)
 	}
 
-	// Judge.
-	st := &judgeStats{obsKeys: map[string]bool{}}
-	var all []V
+	// Aggregate.
+	var all []vref
 	executed, nontrivial, hung, crashed := 0, 0, 0, 0
-	var transitions int64
+	var transitions, evals, requests int64
+	perSpace := map[string]int{}
 	perEntry := map[string]int{}
+	obs := map[string]bool{}
 	outcomeKinds := map[string]bool{}
 	for k := range hs {
-		o, ok := results[k]
+		r, ok := results[k]
 		if !ok {
 			continue
 		}
-		if o.Crash == "" && o.SetupErr == "" {
+		h := hs[k]
+		if r.Crash == "" && !r.Setup {
 			executed++
-			perEntry[o.H.entry()]++
-			transitions += int64(len(o.Reqs))
-			for _, r := range o.Reqs {
-				if r.ResSeen {
-					transitions++
-				}
-			}
-			if len(o.H.Forms) >= 2 || o.H.Hijack != "none" || o.H.Forms[0] != "origin" {
+			perSpace[h.Space]++
+			perEntry[h.entry(0, 0)]++
+			sc := h.Conns[0]
+			trivial := h.Space == "core" && len(sc.Phases[0].Forms) == 1 && sc.Phases[0].Forms[0] == "origin" && h.Hijack == "none"
+			if !trivial {
 				nontrivial++
 			}
 		}
-		if o.Hang {
+		transitions += r.Transitions
+		evals += r.Evals
+		requests += r.Requests
+		for _, x := range r.Obs {
+			obs[x] = true
+		}
+		if r.Hang {
 			hung++
 		}
-		if o.Crash != "" {
+		if r.Crash != "" {
 			crashed++
 		}
-		vs := judge(o, st)
 		var syms []string
-		for _, v := range vs {
-			syms = append(syms, v.Symptom)
+		for i := range r.Vs {
+			syms = append(syms, r.Vs[i].Entry+":"+r.Vs[i].Symptom)
+			all = append(all, vref{k, &r.Vs[i]})
 		}
-		outcomeKinds[o.H.entry()+"|"+strings.Join(syms, ",")] = true
-		all = append(all, vs...)
-		if len(hs) <= 16 || k%(len(hs)/8+1) == 0 {
-			rep.Sample(8, map[string]interface{}{"history": o.H.String(), "modifier_view": o.Reqs, "origin": o.OriginReqs, "client": o.Client, "violated": syms})
+		outcomeKinds[h.Space+"|"+h.entry(0, 0)+"|"+strings.Join(syms, ",")] = true
+		if sampled(k, len(hs)) && r.Outcome != nil {
+			rep.Sample(8, map[string]interface{}{"history": h.String(), "modifier_view": r.Outcome.Reqs, "origin": r.Outcome.OriginReqs, "client": r.Outcome.Conns, "violated": syms})
 		}
 	}
-	sigs := signatures(all)
-	for i := range all {
-		v := &all[i]
-		rep.Violate(sigs[v], v.Desc, map[string]interface{}{"history": v.H, "outcome": v.O})
+	sigs := signatures(all, computeDomains(hs))
+	for _, r := range all {
+		rep.Violate(sigs[r.v], r.v.Desc, map[string]interface{}{"history": hs[r.id], "outcome": results[r.id].Outcome})
 	}
 
-	rep.Coverage["states"] = len(st.obsKeys)
+	rep.Coverage["states"] = len(obs)
 	rep.Coverage["transitions"] = transitions
 	rep.Coverage["traces_validated_against_impl"] = executed
-	rep.Coverage["evaluations"] = st.evals
+	rep.Coverage["evaluations"] = evals
 	rep.Coverage["distinct_nontrivial"] = nontrivial
 	rep.Coverage["distinct_outcomes"] = len(outcomeKinds)
 	rep.Coverage["histories_enumerated"] = len(hs)
+	rep.Coverage["histories_per_space"] = perSpace
 	rep.Coverage["histories_per_entry"] = perEntry
-	rep.Coverage["requests_judged"] = st.requests
+	rep.Coverage["requests_judged"] = requests
 	rep.Coverage["histories_hung"] = hung
 	rep.Coverage["histories_crashed_worker"] = crashed
 	rep.Coverage["worker_processes"] = nshards
-	rep.Coverage["rule"] = "every history of {plain, trafficshape, transparent-TLS listener} x {TLS, plaintext inside the tunnel} x tunnel authority port {443, 8443} x 1..N requests x {origin-form, absolute http://, absolute https://, HTTP/1.0 without Host}^N x {no hijack, hijack in request/response modifier of the last request via the net.Conn or the ReadWriter returned by Hijack} is run once through the real proxy; states = distinct per-request modifier views (entry, listener, first/later, form, scheme, secure, TLS state, host, response seen); transitions = modifier invocations; non-trivial = anything TestIntegrationMITM/TransparentMITM do not do: >=2 requests on the decrypted connection, or a non-origin-form first target, or a hijack"
+	rep.Coverage["rule"] = "every history of the spaces core (listener x tunnel content x authority port x form sequences of length 1..N x hijack position/handle), and in the thorough tier config (core with N<=2 x authority spelling x SNI x client TLS profile x early data), pair (two interleaved tunnels on two connections) and reconnect (plaintext tunnel then a second CONNECT on the same connection) is run once through the real proxy; states = distinct per-request modifier views (entry, space, listener, scenario attributes, scheme, secure, TLS state and version, host, response seen); transitions = modifier invocations; non-trivial = anything TestIntegrationMITM/TransparentMITM do not do: >=2 requests on the decrypted connection, a non-origin-form target, a hijack, or any non-default configuration/topology"
 	rep.Coverage["exhaustive"] = rep.Incomplete == "" && executed == len(hs)
-	rep.Coverage["bounds"] = fmt.Sprintf("N<=%d requests per decrypted connection; 3 listener kinds; 2 tunnel contents (transparent: TLS only); 4 target forms per request; 5 hijack variants at the last request; tunnel authority %s with ports %v", maxN, hostName, ports)
+	if tier == "thorough" {
+		rep.Coverage["bounds"] = "core: N<=4 requests, 3 listeners, 2 tunnel contents (transparent: TLS only), ports {443,8443}, 4 target forms per request, 5 hijack variants at the last request (= every index 1..4); config: N<=2 x 6 authority spellings x 2 SNI x 4 TLS profiles x 2 early-data modes (minus combinations that are core or impossible); pair: 2 connections x N<=2 each, all content combinations; reconnect: 1..2 plaintext requests then second CONNECT with TLS/plaintext and 1..2 requests"
+	} else {
+		rep.Coverage["bounds"] = "core only: N<=2 requests, 3 listeners, 2 tunnel contents (transparent: TLS only), ports {443,8443}, 4 target forms per request, 5 hijack variants at the last request"
+	}
 	rep.Finish()
 }
 
@@ -1422,7 +2010,7 @@ func replay(path string) {
 			} `json:"replay"`
 		} `json:"first"`
 	}
-	if err := json.Unmarshal(b, &doc); err != nil || len(doc.First.Replay.History.Forms) == 0 {
+	if err := json.Unmarshal(b, &doc); err != nil || len(doc.First.Replay.History.Conns) == 0 {
 		fmt.Fprintln(os.Stderr, "replay: no history in", path, err)
 		os.Exit(2)
 	}
